@@ -540,6 +540,133 @@ def r2_12_security_features(ctx, prog, rule="R2.12"):
     ctx.ob(rule, "reader", ok_d, "security_features: base64 decode_slice into the array, big-endian u32 read: %s" % ok_d, dec.where())
 
 
+COOKIE_U32 = ("Cookie::as_u32", ("Cookie", 0x2112A442))
+
+
+def r2_13_xor_addresses(ctx, prog, rule="R2.13"):
+    ctx.rule(rule, "XOR-MAPPED / XOR-PEER / XOR-RELAYED-ADDRESS: port ^ (cookie >> 16); IPv4 octet i ^ (cookie >> (24 - 8 i)) for "
+                   "i in 0..4; IPv6 octets 0..4 likewise and octet i ^ transaction_id[i - 4] for i in 4..16; the same involution "
+                   "is applied on both sides (xor_encode: xor then encode; xor_decode: decode then xor) with the transaction id "
+                   "taken from the header of the message being encoded / decoded")
+    fn = "stun_rs::common::socket_addr_xor"
+    paths, info = C.explore_fn(prog, fn, "x", [r"\{closure"])
+    body = info["body"]
+    ctx.fn(body)
+    IT4 = ("IterMut::enumerate", ("slice::iter_mut", ("Ipv4Addr::octets", (("SocketAddr::ip", "top:addr"), ".0"))))
+    IT6 = ("IterMut::enumerate", ("slice::iter_mut", ("Ipv6Addr::octets", (("SocketAddr::ip", "top:addr"), ".0"))))
+    want_iters = {"V4": [IT4], "V6": [("Enumerate::take", IT6, 4), ("Take::skip", ("Enumerate::take", IT6, 16), 4)]}
+    port = ("op:BitXor", ("SocketAddr::port", "top:addr"), ("op:Shr", COOKIE_U32, 16))
+    fams = {}
+    for pa in paths:
+        fam = pa.choice(r"^variant\(ret:ip@")
+        r = C.expr_of(pa, pa.ret)
+        okr = isinstance(r, tuple) and r[0] == "SocketAddr::new" and r[2] == port and isinstance(r[1], tuple) and r[1][0] == "IpAddr::%s" % fam \
+            and "octets" in repr(r[1])
+        # per loop: the iterator expression and the value written through the element reference
+        loops = {}
+        for i, e in enumerate(pa.log):
+            if e[0] == "write" and str(e[1]).startswith("obj:ret:next@") and str(e[1]).endswith(".0.1"):
+                v = C.expr_of(pa, e[3], 0, i)
+                if isinstance(v, tuple) and v[0] == "op:BitXor" and isinstance(v[1], tuple) and len(v[1]) == 2 and v[1][1] == ".0.1.*":
+                    it = v[1][0][1] if isinstance(v[1][0], tuple) and len(v[1][0]) == 2 else None
+                    nxt = v[1][0]
+                    loops[repr(it)] = (it, nxt, v[2])
+                else:
+                    loops["?%d" % i] = (None, None, v)
+        # abstractly an iterator may be exhausted at once, so a path may contain fewer loops: collect over the family
+        acc = fams.setdefault("family=%s" % fam, {"probs": [], "found": set(), "pa": pa})
+        if not okr:
+            acc["probs"].append("result is %s" % show(r)[:100])
+        for key, (it, nxt, mask) in loops.items():
+            if it is None or it not in want_iters.get(fam, []):
+                acc["probs"].append("unexpected XOR loop / write: %s" % show(it if it is not None else mask)[:80])
+                continue
+            idx = (nxt, ".0.0")
+            if it[0] == "Take::skip":
+                ok = mask == "top:elem"          # transaction_id[i - 4]: index expression checked on the MIR below
+            else:
+                ok = mask == ("op:Shr", COOKIE_U32, ("op:Sub", 24, ("op:Mul", idx, 8)))
+            if ok:
+                acc["found"].add(repr(it))
+            else:
+                acc["probs"].append("mask over %s is %s" % (show(it)[:50], show(mask)[:100]))
+    for k, acc in fams.items():
+        fam = k.split("=")[1]
+        for it in want_iters.get(fam, []):
+            if repr(it) not in acc["found"]:
+                acc["probs"].append("no loop over %s" % show(it)[:80])
+    fams = {k: (sorted(set(acc["probs"])), acc["pa"]) for k, acc in fams.items()}
+    for k, (probs, pa) in sorted(fams.items()):
+        ctx.ob(rule, "xor:%s" % k, not probs, "; ".join(probs) or "port ^ cookie>>16; octets masked as specified", info["where"], replay=None if not probs else pa.describe())
+    ctx.floor(rule, "address families", len(fams), 2)
+    # transaction_id[i - 4]: the only indexing of transaction_id uses (enumerate index) - 4
+    ix = []
+    for bi, blk in enumerate(body.blocks):
+        for st in blk["stmts"]:
+            if st["k"] == "assign" and st["rv"]["k"] == "use" and st["rv"]["op"]["k"] in ("copy", "move"):
+                pl = st["rv"]["op"]["place"]
+                if body.debug_name(pl["l"]) == "transaction_id" and any(pe["k"] == "index" for pe in pl["p"]):
+                    il = [pe for pe in pl["p"] if pe["k"] == "index"][0].get("local", [pe for pe in pl["p"] if pe["k"] == "index"][0].get("l"))
+                    d = None
+                    for b2 in body.blocks:
+                        for s2 in b2["stmts"]:
+                            if s2["k"] == "assign" and s2["place"]["l"] == il and not s2["place"]["p"]:
+                                d = s2["rv"]
+                    ix.append(d)
+    def is_sub4(d):
+        if d is None:
+            return False
+        if d["k"] == "use" and d["op"]["k"] in ("copy", "move") and not d["op"]["place"]["p"]:
+            # through a temporary: find its definition (checked subtraction result .0)
+            for b2 in body.blocks:
+                for s2 in b2["stmts"]:
+                    if s2["k"] == "assign" and s2["place"]["l"] == d["op"]["place"]["l"] and not s2["place"]["p"]:
+                        return is_sub4(s2["rv"])
+            return False
+        if d["k"] == "use" and d["op"]["k"] in ("copy", "move") and d["op"]["place"]["p"]:
+            for b2 in body.blocks:
+                for s2 in b2["stmts"]:
+                    if s2["k"] == "assign" and s2["place"]["l"] == d["op"]["place"]["l"] and not s2["place"]["p"]:
+                        return is_sub4(s2["rv"])
+            return False
+        if d["k"] == "binop" and d["op"].startswith("Sub"):
+            b = d["b"]
+            return b["k"] == "const" and b.get("bits") is not None and int(b["bits"]) == 4
+        return False
+    ctx.ob(rule, "xor:transaction-id-index", len(ix) == 1 and is_sub4(ix[0]), "transaction_id is indexed %d time(s), by (index - 4): %s" % (len(ix), [is_sub4(d) for d in ix]), body.where())
+    # both directions use the same involution
+    paths, info = C.explore_fn(prog, "stun_rs::common::xor_encode", "x", [r"\{closure"])
+    for pa in paths:
+        r = C.expr_of(pa, pa.ret)
+        if isinstance(r, tuple) and r[0] == "Result::Ok":
+            want = (("address_port::encode", ("common::socket_addr_xor", (("T::as_ref", "top:addr"), ".*"), "top:transaction_id"), "top:buffer"), ".ok")
+            ctx.ob(rule, "xor:encode", r[1] == want, "xor_encode = %s" % show(r[1])[:140], info["where"])
+    paths, info = C.explore_fn(prog, "stun_rs::common::xor_decode", "x", [r"\{closure"])
+    for pa in paths:
+        r = C.expr_of(pa, pa.ret)
+        if isinstance(r, tuple) and r[0] == "Result::Ok":
+            d = ("address_port::decode", "top:buffer")
+            want = ("tuple", ("common::socket_addr_xor", (d, ".ok.0"), "top:transaction_id"), (d, ".ok.1"))
+            ctx.ob(rule, "xor:decode", r[1] == want, "xor_decode = %s" % show(r[1])[:140], info["where"])
+    # transaction id provenance in the three attributes
+    n = 0
+    for ty in ("stun::xor_mapped_address::XorMappedAddress", "turn::xor_peer_address::XorPeerAddress", "turn::xor_relayed_address::XorRelayedAddress"):
+        for side, tr, msgfn in (("encode", "EncodeAttributeValue", "AttributeEncoderContext::encoded_message"), ("decode", "DecodeAttributeValue", "AttributeDecoderContext::decoded_message")):
+            b = prog.body("<stun_rs::attributes::%s as stun_rs::attributes::%s>::%s" % (ty, tr, side), required=False)
+            if b is None:
+                continue
+            paths, info = C.explore_fn(prog, b.path, "x", [r"\{closure"])
+            found = None
+            for pa in paths:
+                for e in pa.calls:
+                    if re.search(r"common::xor_%s(::<.*>)?$" % side, e[1]):
+                        found = pa.args(e)[0]
+            want = ((("MessageHeader::decode", ((msgfn, "top:ctx"), ".*")), ".ok.0.transaction_id.*"))
+            n += 1
+            ctx.ob(rule, "xor:tid:%s:%s" % (ty.split("::")[-1], side), found == want, "transaction id = %s" % show(found)[:120], b.where())
+    ctx.floor(rule, "xor attribute codec sides", n, 6)
+
+
 
 def check(ctx, env):
     ctx.explanation = (
@@ -565,6 +692,7 @@ def check(ctx, env):
     r2_10_header_validation(ctx, prog)
     r2_11_reserved_ignored(ctx, prog)
     r2_12_security_features(ctx, prog)
+    r2_13_xor_addresses(ctx, prog)
     c01.r1_6_nested_padding(ctx, prog, rule="R2.8")      # inner padding of the nested PASSWORD-ALGORITHMS list is written where it belongs
     from . import coverage_rules
     coverage_rules.r14_5_write_coverage(ctx, prog, rule="R2.9")   # every byte of an encoded value is written (reserved / padding bytes cannot keep stale data)
